@@ -146,6 +146,10 @@ type SignReq struct {
 	// whole body is consumed, the server answers with a temporary failure - the
 	// way cmdline/remotecmd doRequest moves on to the next server.
 	PriorAttempts int
+	// AfterSign (SignStandalone only), when set, runs between the signer
+	// returning its result and that result being applied to the output: the
+	// window in which a long-running process (server, worker) serves others.
+	AfterSign func()
 }
 
 var ErrSkippedSigned = errors.New("skipped: already signed")
@@ -201,6 +205,9 @@ func SignStandalone(cfg *config.Config, tok token.Token, r SignReq) (err error) 
 	blob, err := mod.Sign(stream, cert, *opts)
 	if err != nil {
 		return err
+	}
+	if r.AfterSign != nil {
+		r.AfterSign()
 	}
 	mimeType := opts.Audit.GetMimeType()
 	if err := transform.Apply(r.Out, mimeType, bytes.NewReader(blob)); err != nil {
